@@ -633,6 +633,10 @@ class SymEnv:
         self.sample_limit = 4
         self.notes = {}
         self.claim_ms = {}
+        self._first_failure_t = None
+        self.after_failure_s = 45
+        self.wall_budget_s = None   # per configuration; the runner sets it (quick 600 s, thorough 4 h)
+        self._t_start = None
         self.cross_limit = 0        # > 0: re-decide the first N obligations of every name with cvc5 (second solver)
         self._cross_count = {}
 
@@ -650,6 +654,20 @@ class SymEnv:
         self.stats.paths += 1
         if self.stats.paths > self.max_paths:
             raise PathLimit(f"more than {self.max_paths} paths")
+        if self.wall_budget_s is not None:
+            if self._t_start is None:
+                self._t_start = time.time()
+            elif time.time() - self._t_start > self.wall_budget_s:
+                raise PathLimit(f"wall-clock budget of {self.wall_budget_s} s for one configuration used up after "
+                                f"{self.stats.paths} paths (inconclusive, never a success)")
+        if self.failures:
+            # a broken tree can multiply the paths of a configuration; its verdict is settled by the first refutation, so the
+            # exploration of this configuration stops a fixed time after it (never reached on a tree where the property holds)
+            now = time.time()
+            if self._first_failure_t is None:
+                self._first_failure_t = now
+            elif now - self._first_failure_t > self.after_failure_s:
+                raise PathLimit(f"exploration of this configuration stopped {self.after_failure_s} s after its first refuted obligation")
 
     @staticmethod
     def next_replay(trace):
@@ -686,9 +704,12 @@ class SymEnv:
         accepted as inconclusive, so that verdicts do not depend on VERIF_SEED or on machine load"""
         seeds = [self.seed % (2 ** 31) if self.seed else 0] + [s_ for s_ in (0, 1, 17) if s_ != (self.seed % (2 ** 31) if self.seed else 0)]
         r, s = z3.unknown, None
-        for attempt, sd in enumerate(seeds[:3]):
+        # once an obligation of this configuration has been refuted its verdict is settled: hard queries on a broken tree
+        # get one short attempt instead of three long ones (never the case on a tree where the property holds)
+        broken = bool(self.failures)
+        for attempt, sd in enumerate(seeds[:1 if broken else 3]):
             s = z3.Solver()
-            s.set("timeout", self.timeout_ms)
+            s.set("timeout", min(self.timeout_ms, 5000) if broken else self.timeout_ms)
             if sd:
                 s.set("random_seed", sd)
             for c in self.pc:
